@@ -9,9 +9,9 @@ export CARGO_NET_OFFLINE=true
 echo "== suite with the change"; cargo test --offline --lib 2>&1 | grep "test result" ; SUITE=$?
 cargo test --offline --doc 2>&1 | grep "test result"
 echo "== demo with the change (must fail)"; cargo test --offline --test seed_demo 2>&1 | grep -E "test result|panicked" | head -3
-git diff -- src > /tmp/seed_eval_patch.diff; git apply -R /tmp/seed_eval_patch.diff
+git diff -- src > /tmp/seed_eval_patch_$ID.diff; git apply -R /tmp/seed_eval_patch_$ID.diff
 echo "== demo without the change (must pass)"; cargo test --offline --test seed_demo 2>&1 | grep -E "test result" | head -2
-git apply /tmp/seed_eval_patch.diff
+git apply /tmp/seed_eval_patch_$ID.diff
 mkdir -p $V/seeded/$ID; cp seed/patch.diff seed/meta.json $V/seeded/$ID/ 2>/dev/null; cp seed/demo.rs $V/seeded/$ID/demo.rs 2>/dev/null
 cd $V
 for P in "$@"; do python3 tools/seed_check.py $ID $P quick | grep -v "^WARNING"; done
